@@ -203,7 +203,7 @@ Print Assumptions C04_checker_sound.
    closed during an admissible handshake nothing is registered and the caller gets ErrPeerNotFound.
    [connect_tail add known] is the tail of Connect with [known] = the answer of getPeer after addPeer said
    "exists"; [connect add] = [connect_tail add true] (used by C04_initiator and the blocking theorems; the
-   refusal branch does not depend on [known]).  connect_tail_v1, the wrapper before commit db8f6a6, is
+   refusal branch does not depend on [known]).  connect_tail_v1, the wrapper before commit ad08637, is
    refuted: Handshake_proofs.connect_tail_v1_refuted. *)
 Theorem C04_outbound_told_implies_known : forall add known r A T,
   In (EReturnPeer A T) (connect_tail add known r) ->
